@@ -1,8 +1,57 @@
-// Unit c31_lexer -- property C31 "The manifest compiler never crashes", FIRST STAGE ONLY (the lexer).
+// Unit c31_lexer -- property C31 "The manifest compiler never crashes": the FIRST STAGE of the compiler (the lexer)
+//   and the snippet builder of the diagnostics step. Parser, generator, decompiler, `lexer_error_diagnostics` /
+//   `parser_error_diagnostics` / `generator_error_diagnostics` (format!) and the third-party renderer are NOT covered.
+// Real code (bodies extracted verbatim on every run; 22 functions):
+//   radix-transactions/src/manifest/token.rs  :: Position::{advance, line_number}; struct Span, Position, TokenWithSpan, enum Token
+//   radix-transactions/src/manifest/lexer.rs  :: fn tokenize; Lexer::{new, is_eof, peek, advance, advance_expected,
+//       advance_matching, advance_and_append, is_whitespace, next_token, tokenize_number, parse_int, tokenize_string,
+//       read_utf16_unit, tokenize_identifier, tokenize_punctuation, new_token}; LexerError::{unexpected_char,
+//       invalid_integer_type}; struct Lexer, LexerError, enum LexerErrorKind, ExpectedChar
+//   radix-transactions/src/manifest/diagnostic_snippets.rs :: fn create_snippet
+//   radix-transactions/src/manifest/compiler.rs :: enum CompileErrorDiagnosticsStyle
+// Proved for EVERY input text (no precondition on `tokenize` / `Lexer::new` / `next_token` beyond the lexer's own
+//   well-formedness invariant `wf`, which `new` establishes and every method preserves):
+//   * PANIC-FREEDOM: the `self.text[..]` index in `peek`; `assert_eq!(self.advance()?, '"')` in tokenize_string (from the
+//     call-site precondition "the next character is the quote"); `c.to_digit(16).unwrap()` and `code * 16 + ..` in
+//     read_utf16_unit (code < 16^k); the surrogate arithmetic `0x10000 + ((unicode - 0xD800) << 10) + low - 0xDC00` (no
+//     underflow / overflow in u32 for ANY second unit 0..=0xFFFF); the three `+= 1` counters of Position::advance
+//     (line_idx, line_char_index <= full_index < text length <= usize::MAX); `char::from_u32(..).ok_or(..)?`.
+//   * TERMINATION: every loop has a `decreases` (remaining characters; the comment/blank skipper: lexicographic with the
+//     `in_comment` flag, because `#` flips the flag without consuming), incl. the main `while let` loop of `tokenize`
+//     (next_token consumes at least one character whenever it returns a token).
+//   * FUNCTIONAL (cheap, exact): position bookkeeping -- `current == pos_at(text, current.full_index)` where the ORACLE
+//     pos_at is the token.rs field documentation (line_idx = number of '\n' before the cursor, line_char_index = distance
+//     from the last '\n'); every token span is exactly the characters consumed for it, non-empty, inside the text;
+//     `tokenize` Ok(tokens) ==> `tokens_cover`: token k starts exactly where the blanks/comments after token k-1 end
+//     (ORACLE `skip`), and after the last token only blanks/comments remain (the whole input is consumed); corollary
+//     lemma_cover_increasing: spans are increasing and non-overlapping. Err(e) ==> `span_ok(text, e.span)`: the error
+//     span lies inside the text, start <= end, with exact line/column -- this is the precondition of create_snippet.
+//   * create_snippet(s, span, ..) for every text WITHOUT "\r\n" and every span_ok span: no overflow in
+//     `line_number() + 5`, `(i + 1)`, `skipped_chars += count + 1`, `annotation_end_index += 1`; no underflow in the two
+//     `-= skipped_chars` (for ANY line endings: the skipped lines end at or before span.start); and the renderer's
+//     explicit panic condition (annotation end > characters of `source` + 1) cannot fire.
+// KNOWN FINDING (genuine defect, replayed on the real crate in units/c31_lexer/finding_replay/OUTPUT.txt):
+//   with a "\r\n" line ending BEFORE the reported span the renderer's panic condition DOES fire, i.e.
+//   compile_manifest_with_pretty_error panics instead of returning the diagnostic: `s.lines()` strips "\r\n" and
+//   create_snippet re-joins with "\n", so `source` is one character shorter per CRLF line while span indices still
+//   count the '\r'. Inputs: "\"\r\n" (range (3, 4), buffer 2), "\r\n\r\n\r\n+" ((6, 7), buffer 5), and the realistic
+//   "DROP_ALL_PROOFS;\r\nDROP_ALL_PROOFS;\r\nDROP_ALL_PROOFS;\r\n1x" ((55, 56), buffer 54). That is why create_snippet
+//   carries the precondition `no_crlf(s@)`; removing it makes exactly the `render` precondition fail (and nothing else).
+//   witness_crlf_annotation_beyond_source states the first input on the formulas of the contract. NOT fixed here.
+// Strings: this vstd models `str` as Seq<char>; `text.chars().collect()` gives `self.text@ == text@` (vstd contract).
+// Assumed std contracts: shims/char_c31.rs (K1-K7: char::is_ascii_digit / is_ascii_hexdigit / is_ascii_alphanumeric /
+//   to_digit / from_u32, Option::from, str::parse total), shims/str_lines_c31.rs (L1-L4: str::lines + count + enumerate,
+//   Chars::count, cmp::min; R1-R2: annotate-snippets types and the renderer's documented panic condition),
+//   env::fmt_invalid_integer (format!). vstd's own: String::{new, push, push_str, as_str, from(char)}, str::{chars, len,
+//   to_string}, Vec::{new, push, len, index}, RangeInclusive::contains, Option::{ok_or, unwrap}, Result::{map, map_err}, `?`.
+// @subst: Position::advance `mut self` -> local copy `this` (3 rewrites, Verus has no `mut self`); tokenize_number: the
+//   ten `Token::XLiteral` constructor values eta-expanded; parse_int: `fn(T) -> Token` -> `impl Fn(T) -> Token`,
+//   `format!(..)` -> env::fmt_invalid_integer(..); create_snippet: `s.lines()` -> `lines_c31(s)` x2.
 use vstd::prelude::*;
 verus! {
 /*@include shims/rt.rs @*/
 /*@include shims/char_c31.rs @*/
+/*@include shims/str_lines_c31.rs @*/
 
 pub mod env {
     use vstd::prelude::*;
@@ -37,6 +86,9 @@ pub mod lexer {
     use vstd::prelude::*;
     use super::super::rt::*;
     use super::super::char_c31::*;
+    use super::super::str_lines_c31::*;
+    use core::cmp::min;
+    use vstd::utf8::*;
 
     /*@item radix-transactions/src/manifest/token.rs :: struct Span
     @derive Clone, Copy, PartialEq, Eq
@@ -414,6 +466,245 @@ pub mod lexer {
             }
         }
     @*/
+
+    // =============================================================================================
+    // DIAGNOSTIC SNIPPET (second step of the property: "rendering that error ... also succeeds")
+    // =============================================================================================
+    /*@item radix-transactions/src/manifest/compiler.rs :: enum CompileErrorDiagnosticsStyle
+    @derive Clone, Copy, PartialEq, Eq
+    @*/
+    /// characters taken by the first k lines when each is followed by ONE line terminator
+    pub open spec fn sum_len(ls: Seq<Seq<char>>, k: int) -> int
+        decreases k
+    {
+        if k <= 0 { 0 } else { sum_len(ls, k - 1) + ls[k - 1].len() + 1 }
+    }
+    /// (type-inference aid for the untyped counter `skipped_chars`)
+    pub open spec fn us(x: usize) -> int { x as int }
+    pub open spec fn sum_mono(ls: Seq<Seq<char>>) -> bool {
+        forall|a: int, b: int| 0 <= a <= b ==> #[trigger] sum_len(ls, a) <= #[trigger] sum_len(ls, b)
+    }
+    /// no "\r\n" line ending in the text
+    pub open spec fn no_crlf(t: Seq<char>) -> bool {
+        forall|j: int| 0 < j < t.len() && #[trigger] t[j] == '\n' ==> t[j - 1] != '\r'
+    }
+    pub proof fn lemma_sum_mono(ls: Seq<Seq<char>>, a: int, b: int)
+        requires 0 <= a <= b
+        ensures sum_len(ls, a) <= sum_len(ls, b)
+        decreases b - a
+    {
+        if a < b { lemma_sum_mono(ls, a, b - 1); }
+    }
+    pub proof fn lemma_sum_mono_all(ls: Seq<Seq<char>>)
+        ensures sum_mono(ls)
+    {
+        assert forall|a: int, b: int| 0 <= a <= b implies #[trigger] sum_len(ls, a) <= #[trigger] sum_len(ls, b) by { lemma_sum_mono(ls, a, b); }
+    }
+    pub proof fn lemma_sum_shift(x: Seq<char>, rest: Seq<Seq<char>>, k: int)
+        requires 1 <= k <= rest.len() + 1
+        ensures sum_len(seq![x] + rest, k) == x.len() + 1 + sum_len(rest, k - 1)
+        decreases k
+    {
+        let all = seq![x] + rest;
+        if k > 1 {
+            lemma_sum_shift(x, rest, k - 1);
+            assert(all[k - 1] == rest[k - 2]);
+        } else {
+            assert(all[0] == x);
+            assert(sum_len(all, 0) == 0);
+        }
+    }
+    /// the first k lines (k <= number of '\n' before p) end at or before p   [no assumption on line endings]
+    pub proof fn lemma_scan_prefix(t: Seq<char>, start: int, i: int, p: int, k: int)
+        requires 0 <= start <= i <= p <= t.len(), 0 <= k <= newlines(t, p) - newlines(t, i)
+        ensures k <= lines_scan(t, start, i).len(), sum_len(lines_scan(t, start, i), k) <= p - start
+        decreases t.len() - i
+    {
+        if i >= t.len() {
+        } else if k == 0 {
+        } else if p == i {
+        } else if t[i] == '\n' {
+            let x = strip_cr(t.subrange(start, i));
+            let rest = lines_scan(t, i + 1, i + 1);
+            lemma_scan_prefix(t, i + 1, i + 1, p, k - 1);
+            lemma_sum_shift(x, rest, k);
+        } else {
+            lemma_scan_prefix(t, start, i + 1, p, k);
+        }
+    }
+    /// all lines together never exceed the text by more than the one terminator added to an unterminated last line
+    pub proof fn lemma_scan_total(t: Seq<char>, start: int, i: int, k: int)
+        requires 0 <= start <= i <= t.len(), 0 <= k <= lines_scan(t, start, i).len()
+        ensures sum_len(lines_scan(t, start, i), k) <= t.len() - start + 1
+        decreases t.len() - i
+    {
+        let sl = lines_scan(t, start, i);
+        if i >= t.len() {
+            if k == 1 { assert(sum_len(sl, 0) == 0); }
+        } else if k == 0 {
+        } else if t[i] == '\n' {
+            let x = strip_cr(t.subrange(start, i));
+            let rest = lines_scan(t, i + 1, i + 1);
+            lemma_scan_total(t, i + 1, i + 1, k - 1);
+            lemma_sum_shift(x, rest, k);
+        } else {
+            lemma_scan_total(t, start, i + 1, k);
+        }
+    }
+    /// WITHOUT "\r\n": all the lines (each with one terminator) cover the whole text
+    pub proof fn lemma_scan_cover_all(t: Seq<char>, start: int, i: int)
+        requires 0 <= start <= i <= t.len(), no_crlf(t)
+        ensures sum_len(lines_scan(t, start, i), lines_scan(t, start, i).len() as int) >= t.len() - start
+        decreases t.len() - i
+    {
+        let sl = lines_scan(t, start, i);
+        if i >= t.len() {
+            if start < t.len() { assert(sum_len(sl, 0) == 0); }
+        } else if t[i] == '\n' {
+            let raw = t.subrange(start, i);
+            let rest = lines_scan(t, i + 1, i + 1);
+            if raw.len() > 0 { assert(raw.last() == t[i - 1]); }
+            assert(strip_cr(raw) == raw);
+            lemma_scan_cover_all(t, i + 1, i + 1);
+            lemma_sum_shift(raw, rest, rest.len() as int + 1);
+        } else {
+            lemma_scan_cover_all(t, start, i + 1);
+        }
+    }
+    /// WITHOUT "\r\n": a position p on the k-th line (1-based, counted from the scan point) lies before the end of the first k lines
+    pub proof fn lemma_scan_cover_pos(t: Seq<char>, start: int, i: int, p: int, k: int)
+        requires 0 <= start <= i <= p <= t.len(), no_crlf(t),
+            k == newlines(t, p) - newlines(t, i) + 1, k <= lines_scan(t, start, i).len()
+        ensures sum_len(lines_scan(t, start, i), k) >= p + 1 - start
+        decreases t.len() - i
+    {
+        let sl = lines_scan(t, start, i);
+        if i >= t.len() {
+            assert(sum_len(sl, 0) == 0);
+        } else if t[i] == '\n' {
+            let raw = t.subrange(start, i);
+            let rest = lines_scan(t, i + 1, i + 1);
+            if raw.len() > 0 { assert(raw.last() == t[i - 1]); }
+            assert(strip_cr(raw) == raw);
+            if p == i {
+                lemma_sum_shift(raw, rest, 1);
+            } else {
+                lemma_newlines_mono(t, i + 1, p);
+                lemma_scan_cover_pos(t, i + 1, i + 1, p, k - 1);
+                lemma_sum_shift(raw, rest, k);
+            }
+        } else {
+            if p == i {
+                lemma_scan_cover_pos(t, start, i + 1, i + 1, k);
+            } else {
+                lemma_scan_cover_pos(t, start, i + 1, p, k);
+            }
+        }
+    }
+    pub proof fn lemma_newlines_mono(t: Seq<char>, a: int, b: int)
+        requires 0 <= a <= b
+        ensures newlines(t, a) <= newlines(t, b)
+        decreases b - a
+    {
+        if a < b { lemma_newlines_mono(t, a, b - 1); }
+    }
+    /// every character takes at least one byte in UTF-8
+    pub proof fn lemma_utf8_len(cs: Seq<char>)
+        ensures encode_utf8(cs).len() >= cs.len()
+        decreases cs.len()
+    {
+        if cs.len() > 0 {
+            lemma_utf8_len(cs.drop_first());
+            assert(encode_scalar(cs[0] as u32).len() >= 1);
+            assert(encode_utf8(cs) == encode_scalar(cs[0] as u32) + encode_utf8(cs.drop_first()));
+        }
+    }
+
+    /*@fn radix-transactions/src/manifest/diagnostic_snippets.rs :: fn create_snippet
+    @subst <<s.lines()>> => <<lines_c31(s)>> x2 why: `core::str::Lines` and the adapters `Iterator::count` / `Iterator::enumerate` have no vstd specification; lines_c31(s) is the shim for s.lines() with the assumed contracts L1/L2 (shims/str_lines_c31.rs); `.count()`, `.enumerate()` and the loop stay verbatim
+    @sig
+        requires
+            span_ok(s@, *span),
+            encode_utf8(s@).len() <= isize::MAX,
+            no_crlf(s@),
+    @entry
+        let ghost ls = lines_of(s@);
+        let ghost n = ls.len() as int;
+        let ghost ls0: int = if span.start.line_idx >= 5 { span.start.line_idx - 5 } else { 0 };
+        proof {
+            lemma_utf8_len(s@);
+            lemma_pos_bounds(s@, span.start.full_index as int);
+            lemma_pos_bounds(s@, span.end.full_index as int);
+            lemma_sum_mono_all(ls);
+            lemma_newlines_mono(s@, 0, span.start.full_index as int);
+            lemma_scan_prefix(s@, 0, 0, span.start.full_index as int, ls0);
+        }
+    @loop 1 iter it
+        invariant_except_break
+            vstd::std_specs::iter::IteratorSpec::remaining(&it.snapshot@).len() == n,
+            forall|k: int| 0 <= k < n ==> (#[trigger] vstd::std_specs::iter::IteratorSpec::remaining(&it.snapshot@)[k]).0 == k
+                && vstd::std_specs::iter::IteratorSpec::remaining(&it.snapshot@)[k].1@ == ls[k],
+            us(skipped_chars) == sum_len(ls, if it.index@ < ls0 { it.index@ } else { ls0 }),
+            source@.len() + us(skipped_chars) == sum_len(ls, if it.index@ < ls0 { it.index@ } else if it.index@ < line_end { it.index@ } else if ls0 < line_end { line_end as int } else { ls0 }),
+        invariant
+            ls == lines_of(s@), n == ls.len(), n == lines_cnt, sum_mono(ls), 0 <= ls0 <= n, line_end <= n,
+            line_start == ls0 + 1, s@.len() + 1 < usize::MAX,
+        ensures
+            us(skipped_chars) <= sum_len(ls, ls0),
+            source@.len() + us(skipped_chars) >= sum_len(ls, line_end as int),
+    @before <<if (i + 1) < line_start>>
+        proof {
+            assert((i, line) == vstd::std_specs::iter::IteratorSpec::remaining(&it.snapshot@)[it.index@]);
+            assert(line@ == ls[i as int]);
+            lemma_scan_total(s@, 0, 0, i + 1);
+        }
+    @before <<annotation_start_index -= skipped_chars>>
+        proof {
+            let e = span.end.full_index as int;
+            if line_end as int == n {
+                lemma_scan_cover_all(s@, 0, 0);
+            } else {
+                lemma_newlines_mono(s@, 0, e);
+                lemma_scan_cover_pos(s@, 0, 0, e, span.end.line_idx as int + 1);
+                assert(sum_len(ls, span.end.line_idx as int + 1) <= sum_len(ls, line_end as int));
+            }
+            assert(annotation_end_index <= sum_len(ls, line_end as int) + 1);
+        }
+    @*/
+
+    // ---- KNOWN FINDING (replayed on the real crate: units/c31_lexer/finding_replay/OUTPUT.txt) -------------------
+    // `no_crlf(s@)` above is NOT a harmless technicality: the property quantifies over "any mix of line endings", and
+    // with a "\r\n" ending the precondition of the renderer is violated. Witness on the formulas the contract of
+    // create_snippet is proved about: text = `"` CR LF (an unterminated string literal on a CRLF line). The lexer
+    // reports UnexpectedEof at position (full_index 3, line 1, column 0) -- a span_ok span. `lines()` yields the ONE
+    // line `"` (CR LF stripped), so source = `"` LF has 2 characters, nothing is skipped, and the annotation range is
+    // (3, 3 + 1): 4 > 2 + 1, the renderer panics ("SourceAnnotation range `(3, 4)` is beyond the end of buffer `2`").
+    pub proof fn witness_crlf_annotation_beyond_source()
+        ensures ({
+            let t = seq!['"', '\r', '\n'];
+            let eof = Position { full_index: 3, line_idx: 1, line_char_index: 0 };
+            &&& !no_crlf(t)
+            &&& span_ok(t, Span { start: eof, end: eof })
+            &&& lines_of(t) == seq![seq!['"']]
+            &&& sum_len(lines_of(t), 1) == 2        // characters of `source`
+            &&& 3 + 1 > sum_len(lines_of(t), 1) + 1 // annotation end (EOF span widened by one) vs source length + 1
+        })
+    {
+        let t = seq!['"', '\r', '\n'];
+        assert(t[2] == '\n' && t[1] == '\r');
+        reveal_with_fuel(newlines, 5);
+        reveal_with_fuel(line_start, 5);
+        assert(newlines(t, 3) == 1);
+        assert(line_start(t, 3) == 3);
+        reveal_with_fuel(lines_scan, 5);
+        let raw = t.subrange(0, 2);
+        assert(raw.last() == '\r');
+        assert(strip_cr(raw) =~= seq!['"']);
+        assert(lines_scan(t, 3, 3) =~= Seq::<Seq<char>>::empty());
+        assert(lines_scan(t, 0, 2) =~= seq![seq!['"']]);
+        assert(lines_of(t) =~= seq![seq!['"']]);
+        reveal_with_fuel(sum_len, 3);
+    }
 } // mod lexer
 }
 } // verus!
